@@ -12,25 +12,7 @@ def r02_1(run):
     c01.r01_5(run, rid='R02.1', classes=('6xx',))
 
 
-def code_hook(c):
-    """self.code stands for the status code of the reply the current line belongs
-    to; `self.code = int(line[:3])` keeps it, `= None` clears it."""
-    def hook(node, val, trail):
-        cur = c
-        for n, lab in trail:
-            if n.kind == 'stmt' and isinstance(n.ast, ast.Assign):
-                v = assign_to(n.ast, 'self.code')
-                if v is None:
-                    continue
-                if isinstance(v, ast.Call) and dotted(v.func) == 'int':
-                    cur = c
-                elif is_none(v):
-                    cur = None
-                else:
-                    return None
-        r = eval_small(node.ast, {'self.code': cur})
-        return None if r is UNKNOWN else bool(r)
-    return hook
+code_hook = c01.code_hook
 
 
 def r02_2(run):
